@@ -84,6 +84,48 @@ T.update({
 })
 WAVE2 = {k for k in T if k.endswith('-2')}
 
+# ---- third wave (worktrees under /tmp/seed3; each agent was pointed at one of the mechanisms the property record names)
+T.update({
+ 'C01-3': ('C01', 'burn_tag skips tag strings 8 bytes at a time while a word holds no quote, then hands over to burn_string: a skipped word can end on the backslash of an escape pair',
+           'a tag string with a backslash at offset 8k+7, no earlier quote, followed by a quote or backslash: the counting pass rejects a valid event'),
+ 'C02-3': ('C02', 'Event::eq rewritten "word at a time" with align_to::<u64>() and no fallback for differing alignment',
+           'two byte-identical events in buffers that start at different addresses modulo 8 compare unequal (Hash still agrees)'),
+ 'C03-3': ('C03', 'HEX_INVERSE generated at compile time with an off-by-one letter loop: g and G map to 16 instead of "not hex"',
+           'a g/G inside a hex field: u8 overflow panic in overflow-checked builds, silent acceptance otherwise; hyperloglog_offset 24'),
+ 'C04-3': ('C04', 'Lmdb::index refactored with let-else: the arm for a single-letter tag without a value returns instead of continuing, and the id entry is now written last',
+           'an event carrying a tag like ["p"]: stored and readable by offset, but not by id, never a duplicate, not removable'),
+ 'C05-3': ('C05', 'Lmdb::ci_iter clamps the start of the scan to min(until, now)',
+           'a filter naming no ids/authors/tags and a stored event dated in the future'),
+ 'C06-3': ('C06', 'the two time checks of event_matches replaced by one wrapping unsigned comparison',
+           'a filter with since > until (empty window) matches events outside the open interval (until, since)'),
+ 'C07-3': ('C07', 'burn_value hops over 8-byte blocks without a quote before the byte-wise string skip',
+           'an unknown member whose string value has a backslash at offset 8k+7 starting an escape'),
+ 'C08-3': ('C08', 'Event::verify compares digest and id with an accumulating loop that xors instead of ors',
+           'an id wrong in at least two bytes whose differences cancel under xor (same mask on two bytes, two bytes swapped)'),
+ 'C09-3': ('C09', 'the parameterized-address scans filter hits with Tags::matches("d", value) (any d tag) instead of get_value("d") (the first)',
+           'an event with two d tags whose second value is another event\'s identifier: the two addresses affect one another'),
+'C10-3': ('C10', 'handle_deletion_event applies each target before judging and keeps the verdict in a flag that is assigned, not accumulated',
+           'a request naming a foreign target followed by an own target: accepted, the foreign event is removed and marked'),
+ 'C11-3': ('C11', 'rebuild skips an address marker when the address currently holds an event newer than the marker ("compaction")',
+           'an accepted address deletion at t, a newer event at the address, then rebuild: the marker is gone; after the newer event is deleted by id the covered event is accepted again'),
+ 'C12-3': ('C12', 'Lmdb remembers positive is_deleted answers in a set, and mark_deleted asks is_deleted through the write transaction first',
+           'a request naming the same id in two e tags that then fails at a later tag: the id stays "deleted" in the set although the transaction aborted'),
+ 'C13-3': ('C13', 'Lmdb::new refuses an existing but empty lmdb directory ("the indexes are missing") instead of creating the maps',
+           'a kill during the first Store::new after the lmdb directory was made and before the maps were committed: every later open fails'),
+ 'C14-3': ('C14', 'store_event takes one read snapshot together with the write transaction - evaluated before the writer lock is acquired - and the pre-removal loops iterate it',
+           'two stores at one replaceable address: the older commits while the newer is queued for the lock; the newer misses it in its removal loop and is then refused as replaced'),
+ 'C15-3': ('C15', 'removal marks the removed event in the map by writing ff ff into two reserved header bytes through the file handle',
+           'a held reference to an event that is later replaced / deleted / removed: its bytes change under the reference (no growth involved)'),
+ 'C16-3': ('C16', 'key_naddr_index computes the length byte as min(len as u8, 182): the cast wraps before the clamp',
+           'an address marker whose d is 256..437 bytes long, then rebuild: dump_naddr_deleted decodes a wrong identifier and the marker moves to another address'),
+ 'C17-3': ('C17', 'Lmdb::deindex breaks out of the tag loop when a tag-index key was already absent',
+           'an event with two tags collapsing to one key followed by a further indexed tag, then removed: the later tag entries stay'),
+ 'C19-3': ('C19', 'the final tags-section size check of read_tags_array replaced by a per-string check in read_tag',
+           'a JSON tags array whose LAST tag is an empty [] and whose 2-byte count is what crosses 65,535: accepted with length field 0 or 1'),
+ 'C20-3': ('C20', 'Hll8::to_hex_string rewritten as a "sparse" encoder that never writes the low digit of a register above 15',
+           'a register in 17..255 that is not a multiple of 16: export then import changes the sketch'),})
+
+
 for sid, (prop, what, needs) in sorted(T.items()):
     d = os.path.join(ROOT, 'seeded', sid)
     res = open(os.path.join(d, 'result.txt')).read() if os.path.exists(os.path.join(d, 'result.txt')) else ''
@@ -97,10 +139,10 @@ for sid, (prop, what, needs) in sorted(T.items()):
             det.append({'check': m.group(1), 'kind': kind, 'first_report': why})
     meta = {
         'seed': sid, 'breaks_property': prop, 'change': what, 'needs_to_manifest': needs,
-        'origin': 'written by a sub-agent that saw only the text of property %s and a scratch git worktree of /repo (%s/%s); nothing from /verif' % (prop, '/tmp/seed2' if sid.endswith('-2') else '/tmp/seed', prop),
+        'origin': 'written by a sub-agent that saw only the text of property %s and a scratch git worktree of /repo (%s/%s); nothing from /verif' % (prop, ('/tmp/seed2' if sid.endswith('-2') else '/tmp/seed3' if sid.endswith('-3') else '/tmp/seed'), prop),
         'confirmed_by_me': {
-            'where': 'the scratch worktree %s/%s (removed afterwards)' % ('/tmp/seed2' if sid.endswith('-2') else '/tmp/seed', prop),
-            'commands': ['sh tools/confirm_seed.sh %s/%s' % ('/tmp/seed2' if sid.endswith('-2') else '/tmp/seed', prop)],
+            'where': 'the scratch worktree %s/%s (removed afterwards)' % (('/tmp/seed2' if sid.endswith('-2') else '/tmp/seed3' if sid.endswith('-3') else '/tmp/seed'), prop),
+            'commands': ['sh tools/confirm_seed.sh %s/%s' % (('/tmp/seed2' if sid.endswith('-2') else '/tmp/seed3' if sid.endswith('-3') else '/tmp/seed'), prop)],
             'observed': 'with the patch: the repository\'s own 58 tests pass and the demonstration (seed_demo.rs) fails; without the patch the demonstration passes' +
                         (' (needs --features verif for the forced kill point)' if sid in ('C13-1', 'C13-2') else ''),
         },
